@@ -5,7 +5,7 @@ SPEC = dict(
     level_text="Symbolic execution of the parent-side exit-status function: subprocess::wait_for_child_done's MIR (dumped from the "
                "current source with the nightly compiler) is executed with the results of fread/waitpid and the wait status as free "
                "bit-vector variables constrained only by their POSIX contracts; z3 and cvc5 decide that exit status 0 is returned "
-               "only for the success byte or a worker that itself exited with 0. Loop-free, so the result covers all 2^32 wait statuses.",
+               "only for the success byte or a worker that itself exited with 0. Loop-free, so the result covers all 2^32 wait statuses. Child side: path queries over the normal-return control-flow graph of subprocess_result's MIR (each an SMT formula, z3 and cvc5) show the success byte is sent only after the link work returned Ok; a call-graph reachability query (z3 fixed-point engine over the call edges of all libwild MIR bodies) shows the link work itself can never reach the functions that signal the parent.",
     level_note="Trusted: my MIR parser/executor (mirsmt), the POSIX contracts of fread/waitpid and glibc's W* macros as modelled; "
                "outside: that Linker::run returning Ok implies the file is flushed, panics/aborts inside the worker, no-fork mode.",
     overlays=[],
@@ -16,8 +16,10 @@ SPEC = dict(
                  features="fork", timeout=2400),
             dict(name="call_graph", kind="callgraph", crate="libwild", crate_dir="libwild", module="subprocess", function="*",
                  features="fork", timeout=2400)],
-    functions_encoded=["subprocess::wait_for_child_done (MIR after PostAnalysisNormalize)", "subprocess::subprocess_result (normal-return CFG of the MIR)"],
-    bounds="loop-free: all values of fread's result, waitpid's result in {-1, pid}, all 2^32 wait statuses, any pid > 0",
+    functions_encoded=["subprocess::wait_for_child_done (MIR after PostAnalysisNormalize)", "subprocess::subprocess_result (normal-return CFG of the MIR)",
+                       "call edges of every libwild MIR body (call-graph reachability from Linker::run / run)"],
+    bounds="loop-free: all values of fread's result, waitpid's result in {-1, pid}, all 2^32 wait statuses, any pid > 0; all normal-return "
+           "CFG paths of subprocess_result; call graph over-approximated (callee resolved by last path segment)",
     outside_bounds="that Linker::run returning Ok means the output is flushed; panics/aborts inside the worker; no-fork mode's main, "
                    "kernel behaviour",
     stubs=["environment models: close/fdopen (opaque), fread (result <= nmemb), waitpid (POSIX contract), WEXITSTATUS/WIFEXITED/WIFSIGNALED/WTERMSIG (glibc definitions)"],
